@@ -548,7 +548,8 @@ func (c *Connection) setupConnection() error {
 				c.handshakeVersion = version
 				c.handshakeVersionData = versionData
 				if c.useNodeToNodeProto && versionData != nil {
-					if versionData.DiffusionMode() == protocol.DiffusionModeInitiatorAndResponder {
+					if versionData.DiffusionMode() == protocol.DiffusionModeInitiatorAndResponder &&
+						protocol.GetProtocolVersion(version).EnableFullDuplex {
 						handshakeFullDuplex = true
 					}
 				}
